@@ -16,3 +16,5 @@ OBLIGATIONS = OBLIGATIONS + [K.WITNESSES]
 OBLIGATIONS = OBLIGATIONS + [K.STREAM_SIBS]
 # in-memory vs temp-file staging and early vs late hand-over give the same bytes only if every staging arm transfers all staged bytes (seed C11b)
 OBLIGATIONS = OBLIGATIONS + [K.WRITER_UPDATE, K.CONSUMER]
+# type-resolved rules over the MIR facts (tools/bt-mir)
+OBLIGATIONS = OBLIGATIONS + [K.MIR_HASH_ITER]
